@@ -3,6 +3,7 @@ from fractions import Fraction as F
 from common import cq, cz, cb, clist, cnat
 from plotink import spatial_grid
 
+import common
 ID = "C13"
 COQ_HEADER = "From Plotink Require Import Base.Prelude Model.Grid Corr.C13.\nOpen Scope Z_scope."
 COQ_RUN = "run13"
@@ -96,3 +97,8 @@ def shrink(c):
         last = len(c["paths"]) - 1
         if all(not (k == "r" and a == last) for k, a in ops):
             yield dict(c, paths=c["paths"][:-1])
+
+
+def static_obligations(work, tier):
+    """the loop-free kernels are re-translated from /repo's source on every run and proved equal to the hand model"""
+    return common.kernel_obligations(work, ID, "plotink/plot_utils.py", ['square_dist'])
